@@ -323,6 +323,131 @@ def half_open(d):
     d.reach()
 
 
+LONG_NAME = "n" * 64
+
+
+def _named_world(seg):
+    w = World()
+    lan = nl.FaultLAN([], world=w)
+    dev = Device(nl.make_device("dut", 20, segmentationSupported=seg, maxApduLengthAccepted=50), lan)
+    av = AnalogValueObject(objectIdentifier=("analogValue", 1), objectName=LONG_NAME, presentValue=72.5,
+                           statusFlags=[0, 0, 0, 0], units="degreesFahrenheit")
+    dev.add_object(av)
+    return w, lan, dev, nl.RawPeer(PEER, lan), av
+
+
+@meta(bounds="a device whose answer does not fit: ReadProperty of a 64-character object name (a ComplexAck of 79 octets) with a "
+             "symbolic max-response code 0..5 (50..1476 octets), symbolic segmented-response-accepted flag and max-segments "
+             "code, toward a device of each segmentation capability: exactly one reply with the invoke ID - the answer in one "
+             "APDU, its first segment, or an abort - never silence; afterwards the device is clean and healthy",
+      outside="answers longer than two segments",
+      stubs=STUBS)
+def long_answer(d, seg):
+    w, lan, dev, peer, av = _named_world(seg)
+    maxresp = d.int(0, 5, 'maxresp')
+    maxsegs = d.int(0, 7, 'maxsegs')
+    sa = d.bool('sa')
+    inv = 0x33
+    req = bytes([0x02 if sa else 0x00, maxsegs * 16 + maxresp, inv, 0x0C, 0x0C, 0x00, 0x80, 0x00, 0x01, 0x19, 0x4D])
+    peer.send(dev.address, nl.frame(req, True))
+    w.run(until=w.clock)
+    rs = replies(peer)
+    mine = [x for x in rs if x["invoke"] == inv and x["type"] in REPLY_TYPES]
+    if len(mine) != 1 or len(rs) != 1:
+        d.flag(True, "not-exactly-one-reply", n=len(mine), replies=len(rs), maxresp=maxresp, sa=bool(sa), seg=seg,
+               logged=[e[1] for e in d.errors_logged()])
+    elif mine[0]["type"] == 3 and mine[0]["seg"]:
+        # the first segment of the answer: acknowledge every segment, the transfer ends
+        n0 = 0
+        for _ in range(8):
+            segs = [x for x in replies(peer)[n0:] if x["type"] == 3]
+            n0 = len(replies(peer))
+            if not segs or not segs[-1]["mor"]:
+                break
+            peer.send(dev.address, nl.frame(bytes([0x40, inv, segs[-1]["seq"], 0x04]), False))
+            w.run(until=w.clock)
+        last = [x for x in replies(peer) if x["type"] == 3][-1]
+        peer.send(dev.address, nl.frame(bytes([0x40, inv, last["seq"], 0x04]), False))
+    check_health(d, w, lan, dev, peer, "long-answer")
+    d.reach()
+
+
+@meta(bounds="a segmented answer that is abandoned: ReadProperty of the 64-character object name with max-response 50 octets and "
+             "segmented response accepted toward a segmentedBoth device; after its first segment the peer sends one SegmentAck "
+             "with a symbolic sequence number 0..255, symbolic window 1..127 and symbolic nak / server bits - a proper ack, a "
+             "duplicate, or one far past the last segment - and then falls silent: within 60 s of virtual time the device holds "
+             "no transaction and no timer and a valid request with the same invoke ID is answered",
+      outside="more than one stray segment-ack",
+      stubs=STUBS)
+def half_read(d):
+    w, lan, dev, peer, av = _named_world("segmentedBoth")
+    inv = 0xEE
+    req = bytes([0x02, 0x00, inv, 0x0C, 0x0C, 0x00, 0x80, 0x00, 0x01, 0x19, 0x4D])
+    peer.send(dev.address, nl.frame(req, True))
+    w.run(until=w.clock)
+    first = [x for x in replies(peer) if x["type"] == 3 and x["seg"]]
+    if len(first) != 1:
+        raise Violation("no-first-segment", n=len(first))
+    seq = d.int(0, 255, 'acked_sequence_number')
+    win = d.int(1, 127, 'window')
+    nak = d.bool('nak')
+    srv = d.bool('server_bit')
+    peer.send(dev.address, nl.frame(bytes([0x40 + (2 if nak else 0) + (1 if srv else 0), inv, seq, win]), False))
+    w.run(until=w.clock + 60.0)
+    r = nl.residue(dev)
+    if r:
+        raise Violation("leftover-transaction", residue=r, after="abandoned-answer", seq=seq, window=win, seconds=60)
+    if not w.idle():
+        raise Violation("leftover-timer", after="abandoned-answer", seq=seq, window=win, seconds=60)
+    del peer.received[:]
+    # the invoke ID is free again: the same request is answered from its first segment
+    peer.send(dev.address, nl.frame(req, True))
+    w.run(until=w.clock)
+    again = [x for x in replies(peer) if x["type"] == 3 and x["seg"] and x["seq"] == 0 and x["invoke"] == inv]
+    if len(again) != 1:
+        raise Violation("subsequent-valid-request-not-answered", after="abandoned-answer", got=[(x["type"], x["invoke"]) for x in replies(peer)])
+    d.reach()
+
+
+ODD = {
+    # well-framed requests with unusual but legal encodings; each must get exactly one reply
+    "rpm-index-5-octets": lambda d: bytes([0x02, 0x05, 0x44, 0x0E, 0x0C, 0x00, 0x80, 0x00, 0x01, 0x1E, 0x09, 0x55, 0x1D, 0x05,
+                                           d.int(0, 255, 'i0'), d.int(0, 1, 'i1'), 0x00, 0x00, d.int(0, 255, 'i4'), 0x1F]),
+    "rp-index-5-octets": lambda d: bytes([0x02, 0x05, 0x44, 0x0C, 0x0C, 0x00, 0x80, 0x00, 0x01, 0x19, 0x55, 0x2D, 0x05,
+                                          d.int(0, 255, 'i0'), d.int(0, 1, 'i1'), 0x00, 0x00, d.int(0, 255, 'i4')]),
+    "rp-index-max": lambda d: bytes([0x02, 0x05, 0x44, 0x0C, 0x0C, 0x00, 0x80, 0x00, 0x01, 0x19, 0x55, 0x2C,
+                                     0xFF, 0xFF, 0xFF, d.int(0, 255, 'i3')]),
+    "rp-property-4-octets": lambda d: bytes([0x02, 0x05, 0x44, 0x0C, 0x0C, 0x00, 0x80, 0x00, 0x01, 0x1C,
+                                             d.int(0, 255, 'p0'), d.int(0, 255, 'p1'), 0x00, d.int(0, 255, 'p3')]),
+    "rp-instance-any": lambda d: bytes([0x02, 0x05, 0x44, 0x0C, 0x0C, d.int(0, 255, 'o0'), d.int(0, 255, 'o1'), 0x00,
+                                        d.int(0, 255, 'o3'), 0x19, 0x55]),
+}
+
+
+@meta(bounds="well-framed requests with unusual encodings (the instance's): array indexes written in five octets (values to 2^40), "
+             "the largest four-octet index, four-octet property identifiers, any object type and instance - the free octets "
+             "symbolic; each gets exactly one reply with its invoke ID, the concurrent valid request is answered, the device "
+             "stays healthy",
+      outside="other unusual encodings",
+      stubs=STUBS)
+def odd_requests(d, which):
+    w, lan, dev, peer, av = make_world()
+    other = nl.RawPeer(PEER + 1, lan)
+    req = ODD[which](d)
+    peer.send(dev.address, nl.frame(req, True))
+    other.send(dev.address, nl.frame(read_pv(0x42), True))
+    w.run()
+    rs = replies(peer)
+    mine = [x for x in rs if x["invoke"] == 0x44 and x["type"] in REPLY_TYPES]
+    if len(mine) != 1 or len(rs) != 1:
+        d.flag(True, "not-exactly-one-reply", n=len(mine), replies=len(rs), request=req, logged=[e[1] for e in d.errors_logged()])
+    ro = replies(other)
+    if len(ro) != 1 or ro[0]["type"] != 3 or ro[0]["invoke"] != 0x42 or bytes(ro[0]["payload"]) != PV_ACK_BODY:
+        raise Violation("concurrent-valid-request-not-answered", request=req, got=[(x["type"], x["invoke"]) for x in ro])
+    check_health(d, w, lan, dev, peer, "odd-request")
+    d.reach()
+
+
 @meta(bounds="garbage that claims to be relayed from a remote network: station G sends a frame whose NPCI names source "
              "network 5 (SADR 7) followed by a concrete first APDU octet and 0..n symbolic octets (or nothing); "
              "then the real router R relays a valid ReadProperty from network 5 (from station 7 or 9); order of the two symbolic",
@@ -521,6 +646,11 @@ def instances(tier):
     out.append(Inst(routed_noise, dict(n=1 if q else 3), budget=120 if q else 900, path_timeout=60))
     out.append(Inst(dcc_values, {}, budget=120 if q else 300, path_timeout=60))
     out.append(Inst(half_open, {}, budget=120 if q else 300, path_timeout=60))
+    for seg in ("noSegmentation", "segmentedReceive", "segmentedTransmit", "segmentedBoth"):
+        out.append(Inst(long_answer, dict(seg=seg), budget=120 if q else 300, path_timeout=60))
+    out.append(Inst(half_read, {}, budget=200 if q else 600, path_timeout=60))
+    for which in ODD:
+        out.append(Inst(odd_requests, dict(which=which), budget=120 if q else 300, path_timeout=60))
     if not q:
         out.append(Inst(layer_noise, dict(n=6, first=[1, 0x20]), budget=900, label="apdu-area,dnet"))
         out.append(Inst(layer_noise, dict(n=5, first=[1, 0x08]), budget=1500, label="apdu-area,snet"))
